@@ -11,6 +11,34 @@ let nonvalue_const_array (sy : sys) : bool =
   List.exists (fun e -> List.exists (function ArrayConstant (BVLiteral (_, _), _, _) -> false | ArrayConstant (_, _, _) -> true | _ -> false) (subterms e))
     (all_exprs sy)
 
+let event_of_sexp (x : Sexp.t) : event =
+  match x with
+  | Sexp.List (Sexp.Atom ("decl" | "def") :: _) -> EvCmd (cmd_of_sexp x)
+  | Sexp.List [Sexp.Atom "assert"; e] -> EvAssert (expr_of_sexp e)
+  | Sexp.List (Sexp.Atom "check-sat-assuming" :: es) -> EvCheckAssuming (List.map expr_of_sexp es)
+  | Sexp.List [Sexp.Atom "push"] -> EvPush
+  | Sexp.List [Sexp.Atom "pop"] -> EvPop
+  | Sexp.List [Sexp.Atom "check-sat"] -> EvCheckSat
+  | _ -> raise (Sexp.Parse_error ("bad event " ^ Sexp.to_string x))
+
+(* the loop of bmc.rs against the model, under a solver that always answers unsat *)
+let loop_check fs (sy : sys) (k : int) : string option =
+  match Sexp.field_opt "loop" fs with
+  | None -> None
+  | Some l ->
+      let ca = Sexp.atom (Sexp.field1 "check-assuming" l) = "yes" in
+      let indiv = Sexp.atom (Sexp.field1 "mode" l) = "indiv" in
+      let nm = names_of_case fs in
+      let model = bmc_events Current sy nm ca indiv (N.to_nat (n_of_int k)) in
+      (match Sexp.field_opt "events" l, model with
+       | Some evs, Some m ->
+           let impl = List.map event_of_sexp evs in
+           if impl = m then None
+           else Some (Printf.sprintf "loop: %d implementation calls vs %d model calls (check-assuming=%b individually=%b)" (List.length impl) (List.length m) ca indiv)
+       | None, None -> None
+       | Some _, None -> Some "loop: the model panics (get_signal_at), the implementation does not"
+       | None, Some _ -> Some "loop: the implementation panicked or returned early, the model does not")
+
 let show_expected = function
   | Some j -> Printf.sprintf "fail at depth %d" (int_of_n (N.of_nat j))
   | None -> "success"
@@ -81,6 +109,9 @@ let handle (x : Sexp.t) : string =
     match !fail with
     | Some (key, d) -> Registry.result ~id ~status:"fail" ~key ~detail:d ()
     | None ->
+      match loop_check fs sy k with
+      | Some d -> Registry.result ~id ~status:"diff" ~key:"loop-differs-from-model" ~detail:d ()
+      | None ->
         Registry.result ~id ~status:"ok" ~key:(match expected with Some _ -> "reachable" | None -> "unreachable")
           ~detail:(Printf.sprintf "%s; %d runs agree, %d not run" (show_expected expected) !n_runs !n_notrun) ()
   end
